@@ -248,6 +248,16 @@ def run_one(ck, prog):
         diff = {k: (want.get(k), fields.get(k)) for k in sorted(set(want) | set(fields)) if want.get(k) != fields.get(k)}
         ck.ob("C18.4", f"new_{ctor}|field-sources-match-the-kernel-abi", not diff, fn=Q + "IoUringSubmissionQueueEntry::new_" + ctor,
               detail=f"entry fields fed from other arguments than the reviewed layout (field: (reviewed parameter indices / constant, found)): {diff}")
+    # a caller's argument reaches its field as it is (no masking or arithmetic on the way: the direct system call gets the value unchanged),
+    # and the constants an entry can carry are the reviewed ones (opcode, AT_FDCWD, IORING_TIMEOUT_ABS ..): frozen table c18_consts.json
+    cpath = os.path.join(os.path.dirname(__file__), "c18_consts.json")
+    frozen = _json.load(open(cpath)) if os.path.exists(cpath) else {}
+    for ctor, (consts, arith) in sorted(sqe_constants_and_arith(prog).items()):
+        ck.ob("C18.4", f"new_{ctor}|arguments-reach-the-entry-unmodified", not arith, fn=Q + "IoUringSubmissionQueueEntry::new_" + ctor,
+              detail=f"a parameter is transformed before it is stored in the entry: {arith}")
+        want_c = frozen.get(ctor)
+        ck.ob("C18.4", f"new_{ctor}|entry-constants-are-the-reviewed-ones", want_c is not None and set(consts) <= set(want_c), fn=Q + "IoUringSubmissionQueueEntry::new_" + ctor,
+              detail=f"constants that can reach the entry: {consts}; reviewed: {want_c} (a new constant - a flag bit, a clock selector - changes what the kernel is asked to do)")
     ck.floor("C18.4", "SQE constructors", n, 16 if ck.config == "C" else 19)   # three constructors need alloc
     # the flag words handed to the kernel: each named bit has the value the kernel header gives it (frozen table c18_flags.json), and no
     # two names of one flag type share a bit (a copy-pasted shift turns a hard link into a soft one)
@@ -320,6 +330,35 @@ def sqe_field_sources(prog):
                     for f, o in zip(st["rv"]["fields"], st["rv"]["ops"]):
                         flatten(f, ctx.prov.operand(o, (b["id"], i)))
         out[m.group(1)] = flat
+    return out
+
+
+def sqe_constants_and_arith(prog):
+    """per constructor: the set of integer constants that can reach the entry (through any definition of a merged value) and the
+    arithmetic / bit operations applied to a caller's argument on its way into the entry"""
+    out = {}
+    for p, fn in sorted(prog.fns.items()):
+        m = re.match(r"^" + re.escape(Q) + r"IoUringSubmissionQueueEntry::new_(\w+)$", p)
+        if not m:
+            continue
+        ctx = prog.ctx(fn)
+        consts, arith = set(), []
+        for b in fn["blocks"]:
+            for i, st in enumerate(b["stmts"]):
+                if st["k"] == "assign" and st["rv"]["k"] == "agg" and (st["rv"].get("adt") or "").endswith("io_uring_sqe"):
+                    for o in st["rv"]["ops"]:
+                        e = ctx.prov.operand(o, (b["id"], i))
+                        for z in walk_deep(e, ctx.prov, limit=600):
+                            if z[0] == "const" and isinstance(z[1], int) and not isinstance(z[1], bool):
+                                consts.add(z[1])
+                            is_arith = (z[0] == "bin" and z[1] not in ("Eq", "Ne", "Lt", "Gt", "Le", "Ge")) or \
+                                (z[0] == "call" and (z[1] or "").endswith(("::bitand", "::bitor", "::bitxor", "::not", "::shl", "::shr", "::wrapping_add", "::wrapping_sub", "::intersection", "::union", "::difference")))
+                            if is_arith and any(w[0] == "param" for w in walk_deep(z, ctx.prov, limit=80)):
+                                arith.append(show(z)[:80])
+                        v = fold(e)
+                        if v is not None:
+                            consts.add(v)
+        out[m.group(1)] = (sorted(consts), sorted(set(arith)))
     return out
 
 
